@@ -422,3 +422,9 @@ def hfp_slc(hf_bits: int, ag_bits: int, hf_rest: int, ag_rest: int) -> bool:
             commands = sum(d.count(b'\r') for d in da.written)
             finals = sum(len(re.findall(r'\r\n(OK|ERROR|\+CME ERROR: \d+)\r\n', d.decode())) for d in db.written)
             return commands == finals
+
+
+def e2_obligations(tier):
+    """wide-range verification conditions over the AST of the real source (vf/e2.py, vf/e2k.py)"""
+    from vf import e2k
+    return [e2k.dlc_process_tx()]
